@@ -117,11 +117,12 @@ class Frame:
 class Iter:
     """Finite iteration: length term ``n`` and element function ``at(k: z3 Int) -> V``."""
 
-    def __init__(self, n, at, concrete=None, src_locs=()):
+    def __init__(self, n, at, concrete=None, src_locs=(), seq=None):
         self.n = n
         self.at = at
         self.concrete = concrete  # python int length when known
         self.src_locs = tuple(src_locs)
+        self.seq = seq  # the iterated sequence as a value (visible to invariants as _seq)
 
 
 class Run:
@@ -170,7 +171,10 @@ class Run:
             return True
         if z3.is_false(c):
             return False
-        r = self.solver.check(c)
+        try:
+            r = self.solver.check(c)
+        except z3.Z3Exception:
+            return True  # could not decide: keep the path (sound)
         self.ctx.stats["feas_checks"] += 1
         return r != z3.unsat
 
@@ -231,6 +235,10 @@ class Run:
     def cell(self, v):
         return self.heap[v.z]
 
+    def cell_ghost(self, loc):
+        h = self.old_heap if self.old_heap is not None and loc in self.old_heap else self.heap
+        return h[loc].ghost
+
     def snapshot(self):
         return {k: c.copy() for k, c in self.heap.items()}
 
@@ -286,6 +294,9 @@ class Run:
                 except EngineError:
                     continue
             raise EngineError("cannot coerce %s to %s" % (v.t, ty))
+        if v.t.kind == "union" and v.t.index(ty) is not None:
+            self.fail_if(z3.Not(v.t.is_(v.z, ty)), "TypeError", "coerce")
+            return V(ty, v.t.proj(v.z, ty)) if ty.kind != "none" else mk_none()
         if ty.kind == "real" and v.t.kind in ("int", "bool"):
             return V(T.Real, z3.ToReal(self.to_int(v)))
         if ty.kind == "int" and v.t.kind == "bool":
@@ -372,11 +383,13 @@ class Run:
             return z3.Length(self.content(v).z) > 0
         if k == "dict":
             c = self.heap[v.z]
-            if "size" in self.ghost.get(("cell", v.z), {}):
-                return self.ghost[("cell", v.z)]["size"] > 0
+            if "size" in (self.cell_ghost(v.z) or {}):
+                return self.cell_ghost(v.z)["size"] > 0
             raise Unsupported("truthiness of dict")
         if k == "vset" or k == "set":
-            raise Unsupported("truthiness of set")
+            sv = self.content(v) if k == "set" else v
+            x = z3.Const(fresh_name("x"), sv.t.elem.sort())
+            return z3.Exists([x], z3.Select(sv.z, x))
         if k == "obj":
             return z3.BoolVal(True)
         if k == "opaque":
@@ -399,6 +412,16 @@ class Run:
 
     def eq(self, a, b, heap=None):
         ka, kb = a.t.kind, b.t.kind
+        if (ka, kb) in (("dict", "vmap"), ("set", "vset")):
+            return self.content(a, heap).z == b.z
+        if (kb, ka) in (("dict", "vmap"), ("set", "vset")):
+            return a.z == self.content(b, heap).z
+        if ka in ("drec", "itemref") or kb in ("drec", "itemref"):
+            from . import records
+
+            if kb == "none" or ka == "none":
+                return z3.BoolVal(False)
+            return records.as_rec(self, a, heap).z == records.as_rec(self, b, heap).z
         if ka == "const" or kb == "const":
             if ka == kb:
                 x, y = a.z, b.z
@@ -522,7 +545,7 @@ class Run:
         if k == "tuple":
             return z3.IntVal(len(v.t.items))
         if k in ("dict", "set", "vset", "vmap"):
-            g = self.ghost.get(("cell", v.z)) if k in ("dict", "set") else None
+            g = self.cell_ghost(v.z) if k in ("dict", "set") else None
             if g and "size" in g:
                 return g["size"]
             raise Unsupported("len() of %s without size ghost" % v.t)
@@ -598,7 +621,7 @@ class Run:
             return z3.Contains(c.z, xs.z)
         if k in ("seq", "list"):
             if k == "list" and c.t.counted:
-                cnt = self.ghost[("cell", c.z)]["cnt"]
+                cnt = self.cell_ghost(c.z)["cnt"]
                 return z3.Select(cnt, self.coerce(x, c.t.elem).z) >= 1
             s = self.as_seq(c, heap)
             try:
@@ -622,6 +645,10 @@ class Run:
             except EngineError:
                 return z3.BoolVal(False)
             return z3.Select(m.t.has(m.z), xe.z)
+        if k in ("drec", "itemref", "rec"):
+            from . import records
+
+            return records.contains(self, c, x, heap)
         if k == "union":
             return z3.Or([z3.And(c.t.is_(c.z, m), self.contains(V(m, c.t.proj(c.z, m)), x, heap)) for m in c.t.members if m.kind != "none"])
         if k == "const" and isinstance(c.z, (tuple, list, set, frozenset)):
@@ -662,6 +689,10 @@ class Run:
             return self.content(v)
         if v.t.kind in ("set", "dict"):
             return self.content(v)
+        if v.t.kind in ("drec", "itemref"):
+            from . import records
+
+            return records.as_rec(self, v)
         if v.t.heap or v.t is T.Const:
             raise Unsupported("cannot store %s inside a data value" % v.t)
         return v
